@@ -202,6 +202,7 @@ pub fn differential(s: &Session, st: &mut FfiStats) -> Result<(), (String, Strin
             if rc != 0 {
                 return Err(("C20/on-events-error".into(), format!("maybenot_on_events returned {rc} for valid arguments")));
             }
+            reference.verif_set_budget(64 * (b.len() + 1) * (n + 1));
             let want: Vec<Flat> = reference.trigger_events(b, Instant::now()).map(flat_rust).collect();
             if count > n {
                 return Err(("C20/count-exceeds-num-machines".into(), format!("{count} actions reported for {n} machines")));
